@@ -2,6 +2,7 @@ import S2T.Lemmas.Encryption
 import S2T.Lemmas.Guard
 import S2T.Gen.Encryption
 import S2T.Gen.Wrappers
+import S2T.Props.C08_PdfCrypt
 /-!
 # C08 — Encrypted input is rejected as encrypted, plain input never is
 
